@@ -95,10 +95,15 @@ def build_module(shape_label, P, conc_label, second_shape=None):
         D.method(single(S2), 'tm', [arg(S2, 'a'), arg(S, 'b')], tpl=[D.tparam(Q, [mconc])]),
         D.static(single(S2), 'ts', [arg(S2, 'a'), arg(S, 'b')], tpl=[D.tparam(Q, [mconc])]),
         D.ctor('Foo', [arg(S2, 'a'), arg(S, 'b')], tpl=[D.tparam(Q, [mconc])]),
+        # templated static method returning the class itself
+        D.static(single(T('This')), 'fromQ', [arg(S2, 'a')], tpl=[D.tparam(Q, [mconc])]),
+        D.method(single(T('This', 1, '&')), 'selfQ', [arg(S2, 'a')], tpl=[D.tparam(Q, [mconc])]),
     ]
     if S['t'] is None:
         members.append(D.method(pair(S, i), 'pr1', []))
         members.append(D.method(pair(T('ns::Keep', 0, '*'), S), 'pr2', []))
+        members.append(D.method(pair(T('double'), S), 'pr3', []))            # fundamental type first, parameter second
+        members.append(D.static(pair(T('size_t'), S), 'pr4', []))
     base = T('ns::Base', t=[T(P)])
     # two instantiations: the second must not inherit anything from the first
     second = T('ns::Second') if conc_label != 'ns' else T('double')
